@@ -227,7 +227,7 @@ func (c *LocalReusableWorkflowCache) FindMetadata(spec string) (*ReusableWorkflo
 	m, err := parseReusableWorkflowMetadata(src)
 	if err != nil {
 		c.writeCache(spec, nil) // Remember the workflow file was invalid
-		msg := strings.ReplaceAll(err.Error(), "\n", " ")
+		msg := singleLine(err.Error())
 		return nil, fmt.Errorf("error while parsing reusable workflow %q: %s", spec, msg)
 	}
 
